@@ -10,7 +10,11 @@
    function (ANY function); [guard] = the structure stays
    a DAG ([acyclic]: some labelling of the handles by natural numbers strictly
    decreases along every child edge) and a bulk update receives a dict of plain names and existing nodes;
-   [guarded [] h] = every step of history h from the empty heap is guarded.
+   [guarded [] h] = every step of history h from the empty heap is guarded;
+   a delete is moreover guarded by "no Directory holds an entry named b''" (item
+   assignment refuses that name, a bulk update of plain names never creates it;
+   with such an entry d[b''] is d itself and `del d[b'']` raises after the
+   invalidation - the model follows the code there, see raw_delitem).
    The two boolean arguments of step/guard select the code that is modelled:
    first, how a parent link is removed: true = by identity (the code as it is),
    false = with == (the code before commit 3287c19); second, how "no cached
